@@ -540,8 +540,8 @@ func classNames(class, u int) (a, aPort, b string) {
 		a = fmt.Sprintf("10.%d.%d.%d", u>>16&255, u>>8&255, u&255)
 		return a, a + ":8443", fmt.Sprintf("11.%d.%d.%d", u>>16&255, u>>8&255, u&255)
 	default:
-		a = fmt.Sprintf("2001:db8::%x:1", u+1)
-		return a, "[" + a + "]:443", fmt.Sprintf("2001:db8::%x:2", u+1)
+		a = fmt.Sprintf("2001:db8::%x:%x:1", u>>16&0xffff, u&0xffff)
+		return a, "[" + a + "]:443", fmt.Sprintf("2001:db8::%x:%x:2", u>>16&0xffff, u&0xffff)
 	}
 }
 
@@ -896,6 +896,7 @@ func concPart(out *shardOut, e *env, scen []scenario, shard, nshards int, deadli
 		}
 		type viol struct{ sig, desc string }
 		var viols []viol
+		rechecked := false
 		body := func() {
 			viols = nil
 			u++
@@ -1045,8 +1046,21 @@ func concPart(out *shardOut, e *env, scen []scenario, shard, nshards int, deadli
 				out.violate("conc:execution:"+r.Outcome, fmt.Sprintf("%s schedule %v: %s %s", sc, r.ChoiceSeq(), r.Outcome, r.Panic), replay)
 				return true
 			}
-			for _, v := range viols {
-				out.violate(v.sig, fmt.Sprintf("%s [schedule %v]", v.desc, r.ChoiceSeq()), replay)
+			if len(viols) > 0 {
+				vs := append([]viol(nil), viols...)
+				if !rechecked {
+					// determinism discipline: the first violating schedule of a scenario is re-executed and must observe the same log
+					rechecked = true
+					for k := 0; k < 3; k++ {
+						if r2 := vrt.Run(vrt.Config{}, r.ChoiceSeq(), body); r2.Fingerprint() != r.Fingerprint() {
+							fatal("%s: violating schedule %v is not reproducible: %v vs %v", sc, r.ChoiceSeq(), r.Log, r2.Log)
+						}
+					}
+					out.Counters["conc_violating_schedules_reexecuted"]++
+				}
+				for _, v := range vs {
+					out.violate(v.sig, fmt.Sprintf("%s [schedule %v]", v.desc, r.ChoiceSeq()), replay)
+				}
 			}
 			return len(out.Violations) < 200
 		})
